@@ -1,4 +1,4 @@
-(* C01 property theorems (Huffman half).  Nothing but statements closed by `exact`, a pin, and
+(* C01 property theorems (Huffman half first, then the rANS / FSE / LZ half).  Nothing but statements closed by `exact`, a pin, and
    Print Assumptions.  The driver parses this file's output. *)
 From ZV.Common Require Import Base.
 From ZV.C01 Require Import Model ModelCtx ProofsBits ProofsHuff ProofsTree ProofsIO ProofsCtx ProofsXn ProofsRefute ProofsHeap ProofsTotal ProofsRebuild.
@@ -270,3 +270,215 @@ Check xn_encode_total :
   (forall ht, In ht (c_trees e) -> covers_bytes ht) -> bytes_ok d -> (1 <= nst)%nat ->
   exists b, xn_encode e nst d = Some b.
 Print Assumptions xn_encode_total.
+
+(* ---------------------------------------------------------------------------------------------
+   rANS / FSE / LZ half.  The import below comes after the Huffman theorems on purpose: the two halves
+   define a few names twice (e.g. dec_loop) and the later import shadows the earlier one.
+   --------------------------------------------------------------------------------------------- *)
+From ZV.C01 Require Import ModelLz ModelRans ModelFse ProofsRans ProofsRansPar ProofsRansNorm ProofsLz ProofsFse ProofsFseFrame.
+(* one rANS step: for a state in [L, 256 L) and a symbol with a slot, the encoder's new state is again in
+   [L, 256 L), the decoder's step on it returns the symbol and the renormalised state x1, and the decoder's
+   refill from x1 restores the state and byte stream the encoder started from *)
+Theorem rans_step_inverse :
+  forall t st s st', wf_table t -> state_ok (fst st) -> enc_symbol t st s = Some st' ->
+  0 < freq_of t s /\ state_ok (fst st') /\
+  exists x1, dec_symbol t st' = Some (s, (x1, snd st')) /\ dec_renorm x1 (snd st') = Some st.
+Proof. exact enc_symbol_step. Qed.
+Check rans_step_inverse :
+  forall t st s st', wf_table t -> state_ok (fst st) -> enc_symbol t st s = Some st' ->
+  0 < freq_of t s /\ state_ok (fst st') /\
+  exists x1, dec_symbol t st' = Some (s, (x1, snd st')) /\ dec_renorm x1 (snd st') = Some st.
+Print Assumptions rans_step_inverse.
+
+(* every state the encoder reaches lies in [2^16, 2^24): the u64 arithmetic of encode_symbol never wraps,
+   and only covered payloads are encoded *)
+Theorem rans_no_overflow :
+  forall t d st, wf_table t -> enc_all t d = Some st ->
+  (RANS_L <= fst st /\ fst st < STATE_BOUND) /\ covers t d.
+Proof. exact rans_no_overflow_proof. Qed.
+Check rans_no_overflow :
+  forall t d st, wf_table t -> enc_all t d = Some st ->
+  (RANS_L <= fst st /\ fst st < STATE_BOUND) /\ covers t d.
+Print Assumptions rans_no_overflow.
+
+(* Rans64Encoder<ParallelX1> / Rans64Decoder<ParallelX1>: whenever encoding succeeds, decoding with the
+   original length returns the payload - every table with sum <= TOTFREQ, every payload (the decoder refuses
+   lengths above MAX_DECOMPRESSED_SIZE) *)
+Theorem rans_roundtrip :
+  forall t d bytes, wf_table t -> N.of_nat (length d) <= MAX_DECOMPRESSED_SIZE ->
+  encode 1 t d = Some bytes -> decode 1 t bytes (length d) = Some d.
+Proof. exact rans_roundtrip_x1_proof. Qed.
+Check rans_roundtrip :
+  forall t d bytes, wf_table t -> N.of_nat (length d) <= MAX_DECOMPRESSED_SIZE ->
+  encode 1 t d = Some bytes -> decode 1 t bytes (length d) = Some d.
+Print Assumptions rans_roundtrip.
+
+(* Rans64Encoder<P> / Rans64Decoder<P> with n interleaved streams (the code instantiates n = 1, 2, 4, 8):
+   every length, also lengths not divisible by n and lengths below n (single-stream fallback on both sides) *)
+Theorem parallel_roundtrip :
+  forall n t d bytes, (1 <= n)%nat -> wf_table t -> N.of_nat (length d) <= MAX_DECOMPRESSED_SIZE ->
+  encode n t d = Some bytes -> decode n t bytes (length d) = Some d.
+Proof. exact parallel_roundtrip_proof. Qed.
+Check parallel_roundtrip :
+  forall n t d bytes, (1 <= n)%nat -> wf_table t -> N.of_nat (length d) <= MAX_DECOMPRESSED_SIZE ->
+  encode n t d = Some bytes -> decode n t bytes (length d) = Some d.
+Print Assumptions parallel_roundtrip.
+
+(* Rans64Encoder::normalize_frequencies (three passes, model of coq/C02/Model.v): the result sums to TOTFREQ,
+   every present symbol keeps at least one slot, absent symbols get none *)
+Theorem normalize_wf :
+  forall f t, nlen f <= 4096 -> ZV.C02.Model.normalize_frequencies f = Some t ->
+  length t = length f /\ sum_list t = TOTFREQ /\
+  (forall i, 0 < nth i f 0 -> 1 <= nth i t 0) /\ (forall i, nth i f 0 = 0 -> nth i t 0 = 0).
+Proof. exact normalize_wf_proof. Qed.
+Check normalize_wf :
+  forall f t, nlen f <= 4096 -> ZV.C02.Model.normalize_frequencies f = Some t ->
+  length t = length f /\ sum_list t = TOTFREQ /\
+  (forall i, 0 < nth i f 0 -> 1 <= nth i t 0) /\ (forall i, nth i f 0 = 0 -> nth i t 0 = 0).
+Print Assumptions normalize_wf.
+
+Theorem normalize_defined :
+  forall f, (exists i, 0 < nth i f 0) -> exists t, ZV.C02.Model.normalize_frequencies f = Some t.
+Proof. exact normalize_defined_proof. Qed.
+Check normalize_defined :
+  forall f, (exists i, 0 < nth i f 0) -> exists t, ZV.C02.Model.normalize_frequencies f = Some t.
+Print Assumptions normalize_defined.
+
+(* Rans64Encoder::new: the table it builds from any counts is well formed (so the round-trip theorems apply)
+   and covers every payload its counts cover - trained on the same data, nothing is ever refused or lost *)
+Theorem table_of_counts_wf :
+  forall raw t, nlen raw <= 4096 -> table_of_counts raw = Some t ->
+  wf_table t /\ forall d, covers raw d -> covers t d.
+Proof. exact table_of_counts_wf_proof. Qed.
+Check table_of_counts_wf :
+  forall raw t, nlen raw <= 4096 -> table_of_counts raw = Some t ->
+  wf_table t /\ forall d, covers raw d -> covers t d.
+Print Assumptions table_of_counts_wf.
+
+(* a symbol without a slot is refused, never substituted; covered payloads are always encoded *)
+Theorem rans_encode_refuses :
+  forall t d, ~ covers t d -> enc_all t d = None.
+Proof. exact enc_all_refuses. Qed.
+Check rans_encode_refuses :
+  forall t d, ~ covers t d -> enc_all t d = None.
+Print Assumptions rans_encode_refuses.
+
+Theorem rans_encode_defined :
+  forall t d, wf_table t -> covers t d -> exists st, enc_all t d = Some st.
+Proof. exact enc_all_defined. Qed.
+Check rans_encode_defined :
+  forall t d, wf_table t -> covers t d -> exists st, enc_all t d = Some st.
+Print Assumptions rans_encode_defined.
+
+(* LZ token stream: every valid parse of a payload (literals and true, possibly overlapping, back-references)
+   decodes to the payload *)
+Theorem lz_parse_decodes :
+  forall toks d, parses [] toks d -> decompress (emit toks) = Some d.
+Proof. exact parses_decompress. Qed.
+Check lz_parse_decodes :
+  forall toks d, parses [] toks d -> decompress (emit toks) = Some d.
+Print Assumptions lz_parse_decodes.
+
+(* whatever the match chooser (hash chains, suffix arrays, heuristics): if it only proposes true matches, the
+   greedy loop round-trips *)
+Theorem lz_sound_chooser_roundtrip :
+  forall ch data, sound ch data -> nlen data <= MAX_DECOMPRESSED_SIZE ->
+  decompress (compress_with ch data) = Some data.
+Proof. exact compress_with_roundtrip. Qed.
+Check lz_sound_chooser_roundtrip :
+  forall ch data, sound ch data -> nlen data <= MAX_DECOMPRESSED_SIZE ->
+  decompress (compress_with ch data) = Some data.
+Print Assumptions lz_sound_chooser_roundtrip.
+
+(* DictionaryCompressor: decompress (compress d) = d for every payload and every (min, max) setting *)
+Theorem lz_decode_encode :
+  forall minl maxl data, maxl < W32 -> nlen data <= MAX_DECOMPRESSED_SIZE ->
+  decompress (compress minl maxl data) = Some data.
+Proof. exact lz_decode_encode_proof. Qed.
+Check lz_decode_encode :
+  forall minl maxl data, maxl < W32 -> nlen data <= MAX_DECOMPRESSED_SIZE ->
+  decompress (compress minl maxl data) = Some data.
+Print Assumptions lz_decode_encode.
+
+(* FseTable::encode_symbol: multiplying by the Alverson reciprocal of init_enc_symbol is an exact division for
+   every frequency 1..4096 and every state the renormalisation leaves (below 2^36 * freq); no u64 operation wraps;
+   the result is the plain rANS step *)
+Theorem alverson_exact :
+  forall start f x, 0 < f -> start + f <= 4096 -> 1 <= x -> x < FSE_XMAX_UNIT * f ->
+  fse_encode_symbol (init_enc_symbol start f) x = Some ((x / f) * 4096 + x mod f + start).
+Proof. exact fse_encode_exact. Qed.
+Check alverson_exact :
+  forall start f x, 0 < f -> start + f <= 4096 -> 1 <= x -> x < FSE_XMAX_UNIT * f ->
+  fse_encode_symbol (init_enc_symbol start f) x = Some ((x / f) * 4096 + x mod f + start).
+Print Assumptions alverson_exact.
+
+(* the limb version of mul_hi before the fix: for a one-slot symbol there is a reachable state on which its
+   middle sum exceeds 2^64 (panic in a checked build) and the wrapped result is not the high word *)
+Theorem fse_mul_hi_old_refuted :
+  exists x, 1 <= x /\ x < FSE_XMAX_UNIT * 1 /\
+            W64 <= mul_hi_old_middle x (e_rcp (init_enc_symbol 0 1)) /\
+            mul_hi_old x (e_rcp (init_enc_symbol 0 1)) <> mul_hi x (e_rcp (init_enc_symbol 0 1)).
+Proof. exact mul_hi_old_refuted_proof. Qed.
+Check fse_mul_hi_old_refuted :
+  exists x, 1 <= x /\ x < FSE_XMAX_UNIT * 1 /\
+            W64 <= mul_hi_old_middle x (e_rcp (init_enc_symbol 0 1)) /\
+            mul_hi_old x (e_rcp (init_enc_symbol 0 1)) <> mul_hi x (e_rcp (init_enc_symbol 0 1)).
+Print Assumptions fse_mul_hi_old_refuted.
+
+(* the payload coder: states stay in [1, 2^48), bytes are written four at a time, states below 2^16 occur only
+   before the first write (so the decoder's "x < 2^16 and 4 bytes left" reads exactly what was written), only
+   covered payloads are encoded, and decoding from the final state returns the payload *)
+Theorem fse_core_roundtrip :
+  forall t d x rout, fse_wf t -> fse_enc_all t d = Some (x, rout) ->
+  fse_inv x rout /\ covers t d /\ fse_dec_all t (length d) x rout = d.
+Proof. exact fse_enc_all_inv. Qed.
+Check fse_core_roundtrip :
+  forall t d x rout, fse_wf t -> fse_enc_all t d = Some (x, rout) ->
+  fse_inv x rout /\ covers t d /\ fse_dec_all t (length d) x rout = d.
+Print Assumptions fse_core_roundtrip.
+
+Theorem fse_encode_refuses :
+  forall t d, ~ covers t d -> fse_enc_all t d = None.
+Proof. exact fse_enc_all_refuses. Qed.
+Check fse_encode_refuses :
+  forall t d, ~ covers t d -> fse_enc_all t d = None.
+Print Assumptions fse_encode_refuses.
+
+Theorem fse_encode_defined :
+  forall t d, fse_wf t -> covers t d -> exists st, fse_enc_all t d = Some st.
+Proof. exact fse_enc_all_defined. Qed.
+Check fse_encode_defined :
+  forall t d, fse_wf t -> covers t d -> exists st, fse_enc_all t d = Some st.
+Print Assumptions fse_encode_defined.
+
+(* one block (compress_single_internal / decompress_single): stored path below 100 bytes, otherwise header with the
+   raw counts + payload + final state; for EVERY normaliser (FseTable::new is a parameter) that returns a table with
+   sum <= 4096 for these counts *)
+Theorem fse_single_roundtrip :
+  forall norm raw t d z,
+  norm raw = Some t -> fse_wf t -> length raw = 256%nat -> Forall (fun x => x < W32) raw ->
+  nlen d <= MAX_DECOMPRESSED_SIZE ->
+  fse_compress_single norm raw d = Some z -> fse_decompress_single norm z = Some d.
+Proof. exact fse_single_roundtrip_proof. Qed.
+Check fse_single_roundtrip :
+  forall norm raw t d z,
+  norm raw = Some t -> fse_wf t -> length raw = 256%nat -> Forall (fun x => x < W32) raw ->
+  nlen d <= MAX_DECOMPRESSED_SIZE ->
+  fse_compress_single norm raw d = Some z -> fse_decompress_single norm z = Some d.
+Print Assumptions fse_single_roundtrip.
+
+(* FseEncoder::compress / FseDecoder::decompress with or without parallel blocks, any block size: a single block is
+   never mistaken for a container, a container (at most 64 blocks since the fix) is always recognised and every
+   block decodes *)
+Theorem fse_roundtrip :
+  forall norm par bs raw t d z,
+  norm raw = Some t -> fse_wf t -> length raw = 256%nat -> Forall (fun x => x < W32) raw ->
+  nlen d <= MAX_DECOMPRESSED_SIZE ->
+  fse_compress norm par bs raw d = Some z -> fse_decompress norm z = Some d.
+Proof. exact fse_roundtrip_proof. Qed.
+Check fse_roundtrip :
+  forall norm par bs raw t d z,
+  norm raw = Some t -> fse_wf t -> length raw = 256%nat -> Forall (fun x => x < W32) raw ->
+  nlen d <= MAX_DECOMPRESSED_SIZE ->
+  fse_compress norm par bs raw d = Some z -> fse_decompress norm z = Some d.
+Print Assumptions fse_roundtrip.
